@@ -9,7 +9,8 @@ PROPS_FILE = 'theories/Props/C12.v'
 THEOREM = 'C12_load_at_most_once'
 RULE = ('random operation sequences (1-40 ops) over 1-4 handles placed at depth 1-3 of a '
         'ResourceMap, loaded values drawn from None/0/0.0/""/[]/{}/objects with '
-        '__bool__ False, __eq__ always True, __eq__ always False / a World; each access '
+        '__bool__ False, __eq__ always True, __eq__ always False / a World; 15% of the accesses '
+        'are scripted to make load() raise if they trigger a load; each access '
         'goes through one of 6 paths (h(), m[path], static attribute, static item, '
         'm.get, static get; [] starts from a random enclosing map, static accesses use a random one of the snapshots built so far, new snapshots are built at random points) or is a SimpleLoop.switch with random clear_current/clear_next; distinct = different (case, trace); '
         'non-trivial = at least one clear and two loading accesses of the same handle')
@@ -47,10 +48,13 @@ def gen(rng, tier):
             elif r < 0.35:
                 ops.append(['cached', h])
             elif r < 0.5 and kinds[h] == 'world':
-                ops.append(['switch', h, rng.random() < 0.5, rng.random() < 0.4])
+                ops.append(['switch', h, rng.random() < 0.5, rng.random() < 0.4,
+                            rng.random() < 0.15])
             else:
                 # sel: which enclosing map / which snapshot the access starts from
-                ops.append(['access', h, rng.choice(PATHS), rng.randrange(1000)])
+                # last item: load() raises if this access triggers a load
+                ops.append(['access', h, rng.choice(PATHS), rng.randrange(1000),
+                            rng.random() < 0.15])
         cases.append(dict(kinds=kinds, depth=depth, ops=ops))
     return cases
 
@@ -82,12 +86,19 @@ def make_value(kind):
 def run(case):
     import desper
 
+    class LoadError(Exception):
+        pass
+
     class H(desper.Handle):
         def __init__(self, kind):
             self.kind = kind
-            self.loaded = []
+            self.loaded = []        # one entry per load() attempt
+            self.fail = False
 
         def load(self):
+            if self.fail:
+                self.loaded.append(LoadError)
+                raise LoadError()
             v = make_value(self.kind)
             self.loaded.append(v)
             return v
@@ -114,6 +125,7 @@ def run(case):
         key = keys[o[1]]
         parts = key.split('/')
         flag = False
+        h.fail = bool(o[4]) if o[0] in ('access', 'switch') and len(o) > 4 else False
         try:
             if o[0] == 'clear':
                 h.clear()
@@ -156,15 +168,17 @@ def run(case):
                     flag = res is h
                 else:
                     flag = bool(h.loaded) and res is h.loaded[-1]
-            out.append([len(h.loaded), flag])
-        except Exception as ex:         # no operation of C12 may raise
-            out.append([-1, False, type(ex).__name__])
+            out.append([len(h.loaded), flag, False])
+        except LoadError:               # the scripted load error reached the caller
+            out.append([len(h.loaded), True, True])
+        except Exception as ex:         # nothing else may raise
+            out.append([-1, False, False, type(ex).__name__])
     return {'obs': out}
 
 
 def encode(case, trace):
     if 'obs' not in trace:              # hang / crash: an unacceptable trace
-        return lst(['(OClear 0, {| o_loads := -1; o_flag := false |})'])
+        return lst(['(OClear 0, {| o_loads := -1; o_flag := false; o_exc := false |})'])
     items = []
     for o, ob in zip(case['ops'], trace['obs']):
         if o[0] == 'resnap':
@@ -174,10 +188,11 @@ def encode(case, trace):
         elif o[0] == 'cached':
             op = '(OCached %s)' % z(o[1])
         elif o[0] == 'switch':
-            op = '(OSwitch %s %s %s)' % (z(o[1]), b(o[2]), b(o[3]))
+            op = '(OSwitch %s %s %s %s)' % (z(o[1]), b(o[2]), b(o[3]), b(len(o) > 4 and o[4]))
         else:
-            op = '(OAccess %s %s)' % (z(o[1]), o[2])
-        items.append('(%s, {| o_loads := %s; o_flag := %s |})' % (op, z(ob[0]), b(ob[1])))
+            op = '(OAccess %s %s %s)' % (z(o[1]), o[2], b(len(o) > 4 and o[4]))
+        items.append('(%s, {| o_loads := %s; o_flag := %s; o_exc := %s |})' % (
+            op, z(ob[0]), b(ob[1]), b(len(ob) > 2 and ob[2])))
     return lst(items)
 
 
